@@ -207,4 +207,7 @@ def run(ctx):
   sorted_sites = [n for m_ in cp.methods.values() for n in own_nodes(m_.node) if isinstance(n, ast.Call) and unparse(n.func) == "sorted" and n.args and "_caption_lines" in unparse(n.args[0])]
   ctx.check(len(sorted_sites) >= 2, "ORD-rows", f"{cp.qualname}|rows are read in row order", ctx.where(cp.module, cp.node), f"{len(sorted_sites)} sorted(...) reads of the row dictionary; {nr} tabled order-free iterations",
             "the row dictionary is no longer read through sorted(...) where the order of rows matters")
+  # ';' time codes advance by SMPTE drop-frame labels: the frame arithmetic behind add_frames agrees with SMPTE ST 12-1 at the minute boundaries
+  from . import c12 as _c12
+  _c12.check_drop_frame_labels(ctx)
   common.check_history_independence(ctx, [n for n in ctx.ix.modules if n.startswith("ttconv.scc")] + ["ttconv.time_code"])
